@@ -121,6 +121,8 @@ def checkKeyProof (o : GroupOps G) (H : List ByteArray → Int) (pk : PubKey G) 
   if (keys pk.r).any (fun k => !names.contains k && k != "master_secret") then .err
   else if names.any (fun k => (lookup k pk.r).isNone) then .err
   else
+    -- S must be invertible (repaired in /repo: for S = 0 every recomputed commitment vanishes)
+    (o.inv pk.s).bind fun _ =>
     (o.inv pk.z).bind fun zi =>
     (o.pow zi p.c).bind fun zic =>
     (o.pow pk.s p.xzCap).bind fun sx =>
